@@ -4,7 +4,7 @@ use crate::engine::{par_blocks, sweep_strings, Budget, StrSpace};
 use crate::models::grammar::check_sentence;
 use crate::models::pos::pos_table;
 use crate::report::{esc, h64, Acc, Report, Tier, Violation};
-use crate::scopes::{load_suite, s_char, s_tok, SIGMA_MIX};
+use crate::scopes::{load_suite, s_char, s_props, s_tok, SIGMA_MIX};
 use crate::subject::*;
 use saphyr::{LoadableYamlNode, MarkedYaml, MarkedYamlOwned, Yaml, YamlOwned};
 use saphyr_parser::{Parser, ScalarStyle};
@@ -41,11 +41,13 @@ pub fn plan(tier: Tier, n_quick: usize, n_thorough: usize, k_quick: usize, k_tho
         Tier::Quick => {
             let mut spaces = s_char(n_quick);
             spaces.push(s_tok(k_quick));
+            spaces.push(s_props(5));
             SweepPlan { spaces, suite: true, suite_neighbourhood: false, gen: vec![(3, 2), (4, 1)] }
         }
         Tier::Thorough => {
             let mut spaces = s_char(n_thorough);
             spaces.push(s_tok(k_thorough));
+            spaces.push(s_props(7));
             SweepPlan { spaces, suite: true, suite_neighbourhood: true, gen: vec![(4, 2), (5, 1)] }
         }
     }
@@ -547,6 +549,73 @@ fn c12_marked(s: &str, o: &Obs, acc: &mut Acc) {
     }
     for p in problems.iter().take(1) {
         acc.violation(viol("marked-node-span".into(), s, "node span == span of the creating event", p.clone()));
+    }
+    // deferred loading followed by resolution keeps every node's span
+    {
+        use saphyr::{AnnotatedNode, AnnotatedNodeOwned, YamlLoader};
+        let d1 = catch_unwind(AssertUnwindSafe(|| {
+            let mut p = Parser::new_from_iter(s.chars());
+            let mut l: YamlLoader<MarkedYaml> = YamlLoader::default();
+            l.early_parse(false);
+            p.load(&mut l, true).ok()?;
+            let mut docs = l.into_documents();
+            for d in docs.iter_mut() {
+                AnnotatedNode::parse_representation_recursive(d);
+            }
+            Some(docs)
+        }));
+        let d2 = catch_unwind(AssertUnwindSafe(|| {
+            let mut p = Parser::new_from_iter(s.chars());
+            let mut l: YamlLoader<MarkedYamlOwned> = YamlLoader::default();
+            l.early_parse(false);
+            p.load(&mut l, true).ok()?;
+            let mut docs = l.into_documents();
+            for d in docs.iter_mut() {
+                AnnotatedNodeOwned::parse_representation_recursive(d);
+            }
+            Some(docs)
+        }));
+        fn sp(n: &MarkedYaml, out: &mut Vec<Sp>) {
+            use saphyr::YamlData;
+            out.push(Sp::of(&n.span));
+            match &n.data {
+                YamlData::Sequence(v) => v.iter().for_each(|c| sp(c, out)),
+                YamlData::Mapping(m) => m.iter().for_each(|(k, v)| {
+                    sp(k, out);
+                    sp(v, out)
+                }),
+                _ => {}
+            }
+        }
+        fn spo(n: &MarkedYamlOwned, out: &mut Vec<Sp>) {
+            use saphyr::YamlDataOwned;
+            out.push(Sp::of(&n.span));
+            match &n.data {
+                YamlDataOwned::Sequence(v) => v.iter().for_each(|c| spo(c, out)),
+                YamlDataOwned::Mapping(m) => m.iter().for_each(|(k, v)| {
+                    spo(k, out);
+                    spo(v, out)
+                }),
+                _ => {}
+            }
+        }
+        let mut eager = vec![];
+        docs.iter().for_each(|d| sp(d, &mut eager));
+        if let Ok(Some(dd)) = d1 {
+            let mut v = vec![];
+            dd.iter().for_each(|d| sp(d, &mut v));
+            // resolution may merge keys that become equal; only compare when the shapes agree
+            if v.len() == eager.len() && v != eager {
+                acc.violation(viol("marked-span-lost-by-deferred-resolution nt=MarkedYaml".into(), s, "same spans as the eager load", format!("{v:?} vs {eager:?}")));
+            }
+        }
+        if let Ok(Some(dd)) = d2 {
+            let mut v = vec![];
+            dd.iter().for_each(|d| spo(d, &mut v));
+            if v.len() == eager.len() && v != eager {
+                acc.violation(viol("marked-span-lost-by-deferred-resolution nt=MarkedYamlOwned".into(), s, "same spans as the eager load", format!("{v:?} vs {eager:?}")));
+            }
+        }
     }
     // owned twin: spans must equal those of the borrowed tree
     fn spans(n: &MarkedYaml, out: &mut Vec<Sp>) {
